@@ -553,6 +553,9 @@ func writeEvidence(path string, o checkOpts, seed int, samples []sample, counts 
 		for k := range r.assumed {
 			assumedSet[k] = true
 		}
+		if r.spec != nil && r.spec.HasMod && !r.spec.Trusted {
+			trusted = append(trusted, "declared frame (modifies clause) of "+r.spec.Name+" is not checked against its body")
+		}
 	}
 	for _, k := range sortedKeys(assumedSet) {
 		if strings.HasPrefix(k, "native:") {
